@@ -420,6 +420,27 @@ pub fn c41_ref_borrower_after_consumer<'a>(a: Stream<u32, P<'a>>) {
     borrower.all_ticks().embedded_output("second");
 }
 
+/// `filter_not_in` on an UNBOUNDED positive side (found by engine Hydro): the builder records
+/// `Bounded` in the Difference node's metadata whatever the boundedness of `self` is
+pub fn c41_filter_not_in_unbounded<'a>(a: Stream<u32, P<'a>>) {
+    let p = a.location().clone();
+    let neg = p.source_iter(q!([1u32, 3]));
+    a.filter_not_in(neg).embedded_output("out");
+}
+
+/// only one side of `partition` is used (found by engine Hydro)
+pub fn c41_partition_one_side<'a>(a: Stream<u32, P<'a>>) {
+    let (odd, _even) = a.partition(q!(|x| *x % 2 == 1));
+    odd.map(q!(|x| x * 2)).embedded_output("out");
+}
+
+/// both sides of `partition` used (control)
+pub fn c41_partition_both_sides<'a>(a: Stream<u32, P<'a>>) {
+    let (odd, even) = a.partition(q!(|x| *x % 2 == 1));
+    odd.map(q!(|x| x * 2)).embedded_output("odd");
+    even.embedded_output("even");
+}
+
 // ------------------------------------------------------------------------------------ stages
 // typed building blocks for the generated compositions (src/generated.rs, written by
 // tools/hydrob.py from VERIF_SEED): every stage maps an unbounded totally ordered u32 stream of
